@@ -558,10 +558,6 @@ class io_epoll_context::read_sender {
       }
 
       if (result == -EAGAIN || result == -EWOULDBLOCK) {
-        if constexpr (is_stop_ever_possible) {
-          stopCallback_.construct(
-              get_stop_token(receiver_), cancel_callback{*this});
-        }
         UNIFEX_ASSERT(
             static_cast<completion_base*>(this)->enqueued_.load() == 0);
         static_cast<completion_base*>(this)->execute_ =
@@ -571,6 +567,12 @@ class io_epoll_context::read_sender {
         event.events = EPOLLIN | EPOLLRDHUP | EPOLLHUP;
         UNIFEX_VERIF_YIELD("io.ep.r.register");
         (void)epoll_ctl(context_.epollFd_.get(), EPOLL_CTL_ADD, fd_, &event);
+        // Install the stop callback only once the registration exists: a stop
+        // request (possibly already pending, then delivered inline) removes it.
+        if constexpr (is_stop_ever_possible) {
+          stopCallback_.construct(
+              get_stop_token(receiver_), cancel_callback{*this});
+        }
         return;
       }
 
@@ -801,11 +803,6 @@ class io_epoll_context::write_sender {
       }
 
       if (result == -EAGAIN || result == -EWOULDBLOCK) {
-        if constexpr (is_stop_ever_possible) {
-          stopCallback_.construct(
-              get_stop_token(receiver_), cancel_callback{*this});
-        }
-
         UNIFEX_ASSERT(
             static_cast<completion_base*>(this)->enqueued_.load() == 0);
         static_cast<completion_base*>(this)->execute_ =
@@ -815,6 +812,12 @@ class io_epoll_context::write_sender {
         event.events = EPOLLOUT | EPOLLRDHUP | EPOLLHUP;
         UNIFEX_VERIF_YIELD("io.ep.w.register");
         (void)epoll_ctl(context_.epollFd_.get(), EPOLL_CTL_ADD, fd_, &event);
+        // Install the stop callback only once the registration exists: a stop
+        // request (possibly already pending, then delivered inline) removes it.
+        if constexpr (is_stop_ever_possible) {
+          stopCallback_.construct(
+              get_stop_token(receiver_), cancel_callback{*this});
+        }
         return;
       }
 
